@@ -292,7 +292,8 @@ def run_c05(tier):
                          key=lambda x: (abs(x).bit_length(), abs(x), x < 0))
         tasks += [(values2, list(range(i, min(i + 4, len(values2)))), text_bits) for i in range(0, len(values2), 4)]
     values3 = ladder_values(tier)
-    tasks += [(values3, list(range(i, min(i + 4, len(values3)))), 10000) for i in range(0, len(values3), 4)]
+    # (decimal text only up to 2200 bits: the implementation prints by repeated division, seconds per number beyond that)
+    tasks += [(values3, list(range(i, min(i + 4, len(values3)))), 2200) for i in range(0, len(values3), 4)]
     collect(st, pmap(c05_rows, tasks))
     collect(st, pmap(c05_singles, [(single_k, L5 if tier == 'quick' else L8, text_bits)]))
     collect(st, pmap(c05_closure, [(seeds, True)]))
@@ -306,7 +307,7 @@ def run_c05(tier):
                 'and decimal text for results up to %d bits' % text_bits,
         'scope': {'distinct_operand_values': len(values), 'long_operand_values_second_grid': len(values2),
                   'size_ladder_grid': {'values': len(values3), 'limb_counts': LADDER_Q if tier == 'quick' else LADDER_T,
-                                       'decimal_text_compared_up_to_bits': 10000},
+                                       'decimal_text_compared_up_to_bits': 2200},
                   'ordered_pairs': st.n.get('pairs', 0),
                   'ops': list(BIN_OPS) + ['==', 'partial_cmp', 'neg', 'minus', 'from_vec', 'new'],
                   'limb_alphabet': 'L5=%r%s' % (L5, '' if tier == 'quick' else ' and L8=%r' % L8),
@@ -663,7 +664,7 @@ def run_c06(tier):
     tasks = [(pairs, list(range(i, min(i + chunk, nvals))), 130) for i in range(0, nvals, chunk)]
     pairs2 = ladder_rationals(tier, small=True)
     nvals2 = len(set(Fraction(p, q) for p, q in pairs2)) + 1
-    tasks += [(pairs2, list(range(i, min(i + 2, nvals2))), 10000, False) for i in range(0, nvals2, 2)]
+    tasks += [(pairs2, list(range(i, min(i + 2, nvals2))), 1200, False) for i in range(0, nvals2, 2)]
     collect(st, pmap(c06_rows, tasks))
     seeds = CLOSURE_SEEDS if tier == 'quick' else CLOSURE_SEEDS_T
     collect(st, pmap(_c06_misc, [('unary', pairs, None, None), ('unary', pairs2, None, None), ('closure', None, seeds, True)]))
@@ -677,7 +678,7 @@ def run_c06(tier):
                 'canonical text',
         'scope': {'distinct_values_incl_nan': nvals, 'ordered_pairs': st.n.get('pairs', 0),
                   'size_ladder_grid': {'values': nvals2, 'limbs': '4, 9, 17' if tier == 'quick' else '4..33',
-                                       'note': 'second grid, all ordered pairs, sign/NaN observers and the full canonical text compared'},
+                                       'note': 'second grid, all ordered pairs, sign/NaN observers; canonical text compared for results up to 1200 bits'},
                   'numerators_abs': [str(p) for p in P_ABS], 'denominators': [str(q) for q in Q_SET],
                   'ops': ['add', 'mul', '+=', '*=', 'neg', 'minus', 'flip', 'floor', 'is_pos', 'is_nan', 'Display',
                           'new', 'from_num', 'from_big_num'],
@@ -936,7 +937,7 @@ def c09_values(base, tier):
         for d in (-1, 0, 1):
             s.add(base ** k + d)
             s.add(-(base ** k + d))
-    for m in ladder_magnitudes([4, 8, 9, 16, 17] if tier == 'quick' else LADDER_T):
+    for m in ladder_magnitudes([4, 8, 9, 16, 17] if tier == 'quick' else [x for x in LADDER_T if x <= 65]):
         s.add(m)
         s.add(-m)
     for d in range(base):
